@@ -114,6 +114,80 @@ func CapGapWitness() Spec {
 	return spec
 }
 
+// GenRoleStage: the preempting / reclaiming PodGroup has per-role minimums (minTaskMember).  Victim job 1 runs k equal
+// pods on node n1 (full); job 2 has one pod of role 1 ("master", minimum 1) that mostly fits nowhere, and w+1 pods of role 2
+// ("worker", minimum w) each of which fits in place of one victim.  With minMember = w+1 the workers alone reach minMember,
+// but role 1 has no placed pod: JobPipelined must reject and the statement with the workers' evictions must be discarded.
+// Variants: the master fits too (commit), minMember below the sum of the role minimums (the code then ignores the role
+// minimums), a role-1 pod that already runs.
+func GenRoleStage(r *vh.Rng) Spec {
+	spec := newSpec()
+	reclaim := r.Chance(1, 2)
+	w := int64(r.Range(1, 2))
+	k := w + 1 + int64(r.Range(0, 2))
+	c := int64(r.Range(1, 4)) * 500
+	m := int64(r.Range(1, 3)) << 20
+	spec.Nodes = []sched.NodeSpec{{ID: 1, Has: true, CPU: k*c + vh.Pick(r, []int64{0, 0, 250}), Mem: k*m + vh.Pick(r, []int64{0, 1 << 19}), Pods: k + 4}}
+	spec.Queues = []sched.QueueSpec{{ID: 1, Open: true, Weight: 1}}
+	pq := int64(1)
+	if reclaim {
+		spec.Queues = append(spec.Queues, sched.QueueSpec{ID: 2, Open: true, Weight: int64(r.Range(1, 3))})
+		spec.QRecl[1] = vh.Pick(r, []int64{0, 1})
+		pq = 2
+	}
+	spec.Jobs = append(spec.Jobs, sched.JobSpec{ID: 1, Queue: 1, Min: vh.Pick(r, []int64{0, 0, 1})})
+	spec.PGPhase[1] = 3
+	tid := int64(0)
+	for i := int64(0); i < k; i++ {
+		tid++
+		spec.Tasks = append(spec.Tasks, sched.TaskSpec{ID: tid, Job: 1, Role: 1, Prio: 0, CPU: c, Mem: m, Status: sched.SRunning, Node: 1, Preemptable: true})
+	}
+	masterMin := int64(1)
+	min := masterMin + w
+	switch r.Intn(6) {
+	case 0:
+		min = w // below the sum of the role minimums: CheckTaskPipelined does not look at the roles
+	case 1:
+		min = masterMin + w + 1 // above: the job must also place one more pod of any role
+	}
+	spec.Jobs = append(spec.Jobs, sched.JobSpec{ID: 2, Queue: pq, Min: min, RoleMin: [][2]int64{{1, masterMin}, {2, w}}})
+	spec.PGPhase[2] = 3
+	spec.JPrio[2] = 2
+	// the master: fits nowhere (2 in 3), or fits in place of one victim
+	tid++
+	master := sched.TaskSpec{ID: tid, Job: 2, Role: 1, Prio: int64(r.Range(0, 2)), CPU: 64000, Mem: m, Status: sched.SPending, Preemptable: true}
+	if r.Chance(1, 3) {
+		master.CPU = c
+	}
+	if r.Chance(1, 8) {
+		// a master that already runs elsewhere: role 1 is satisfied whatever happens to the pending one
+		spec.Nodes = append(spec.Nodes, sched.NodeSpec{ID: 2, Has: true, CPU: 500, Mem: 1 << 20, Pods: 2})
+		tid++
+		spec.Tasks = append(spec.Tasks, sched.TaskSpec{ID: tid, Job: 2, Role: 1, Prio: 1, CPU: 500, Mem: 1 << 20, Status: sched.SRunning, Node: 2, Preemptable: false})
+	}
+	spec.Tasks = append(spec.Tasks, master)
+	for i := int64(0); i < w+1; i++ {
+		tid++
+		spec.Tasks = append(spec.Tasks, sched.TaskSpec{ID: tid, Job: 2, Role: 2, Prio: int64(r.Range(0, 2)), CPU: c, Mem: m, Status: sched.SPending, Preemptable: true})
+	}
+	if reclaim {
+		spec.Tiers = vh.Pick(r, [][][]Plug{
+			{{{Kind: KGang, Pre: true, Rec: true}, {Kind: KConf, Pre: true, Rec: true}}},
+			{{{Kind: KConf, Pre: true, Rec: true}, {Kind: KGang, Pre: true, Rec: true}, {Kind: KProp, Pre: true, Rec: true}}},
+			{{{Kind: KGang, Pre: true, Rec: true}}, {{Kind: KConf, Pre: true, Rec: true}}},
+		})
+		spec.Actions = []int64{2}
+	} else {
+		spec.Tiers = vh.Pick(r, [][][]Plug{
+			{{{Kind: KGang, Pre: true, Rec: true}, {Kind: KPrio, Pre: true, Rec: true}}},
+			{{{Kind: KGang, Pre: true, Rec: true}, {Kind: KConf, Pre: true, Rec: true}}},
+			{{{Kind: KPrio, Pre: true, Rec: true}, {Kind: KGang, Pre: true, Rec: true}, {Kind: KConf, Pre: true, Rec: true}}},
+		})
+		spec.Actions = vh.Pick(r, [][]int64{{1}, {1}, {3}})
+	}
+	return spec
+}
+
 // GenDrfStage: drf votes for preemption in the deciding tier and several victims belong to one job.  Victim job 1 runs k
 // equal pods on node n1 (nearly full), preemptor job 2 (same queue, higher priority) has a pending pod that needs 1..3 of
 // them; a bystander job fills other nodes so that the cluster total, and with it every dominant share, varies.  drf lets
